@@ -1,11 +1,20 @@
-(* C08, soundness under chunking: for ANY split of the input into pieces and ANY capacities, a
-   sequence of LZ4F_decompress calls (model) that starts at the beginning of a frame reports
-   completion only if the bytes it consumed so far are a frame accepted by Spec.frame_decode,
-   the concatenated outputs are that frame's specified content, and nothing else was consumed.
-   Method: a simulation between the resumable decoder state (stage, staged prefixes in header[]
-   / tmpIn, pending tmpOut, running hashes, history) and a position in frame_decode's parse:
-   "for every continuation g of the stream, if the specification, resumed at this position on
-   g, yields res, then frame_decode (consumed so far ++ g) = res". *)
+(* C08, chunking independence of the frame decoder (model Model/FrameD.v), for RESUMED calls.
+   For ANY split of the input into pieces and ANY capacities, a sequence of LZ4F_decompress /
+   LZ4F_decompress_usingDict calls that starts at the beginning of a frame
+   - reports completion only if the input is a frame accepted by Spec.frame_decode, the
+     concatenated outputs are that frame's specified content and exactly the frame was consumed
+     (chunked_sound), and conversely
+   - on an input accepted by Spec.frame_decode with every checksum verified never fails, ends with
+     the specification's verdict (chunked_complete), and does end after at most
+     |input| + |content| + 1 calls that offer >= 1 byte and >= 1 byte of room (chunked_reaches).
+   Method: a two-way simulation between the resumable decoder state (stage, staged prefixes in
+   header[] / tmpIn, pending tmpOut, running hashes, history, remaining size) and a position in
+   frame_decode's parse.  CInv p O s : p / O = bytes consumed / produced since the start of the
+   frame, with a continuation clause Kc p E: "for every g, if E skip g res then
+   frame_decode skip (p ++ g) = res" and "if frame_decode false (p ++ g) = res then E false g res"
+   (E sk = the specification resumed at this position with skip flag sk).  Unit lemmas (u_*:
+   pieces that consume nothing, result [after]) and stage lemmas (c_*: result [stepr]); every
+   error return is justified by Bad: no continuation is accepted with all checksums verified. *)
 From Coq Require Import ZArith List Lia Bool.
 From LZ4V Require Import Spec.BlockSpec Spec.XXH32 Spec.FrameSpec Gen.Consts Model.FrameD.
 From LZ4V Require Import Proofs.FrameDHeader Proofs.FrameDProofs Proofs.FrameDReuse Proofs.FrameDSound Proofs.FrameDBisim.
@@ -1663,6 +1672,54 @@ Lemma produced_out s src cap o :
 Proof.
   unfold decompress. destruct (run bdec (call_fuel src) o _) as [l f]. destruct f; cbn; try apply zlen_nonneg. lia.
 Qed.
+
+(* ---- LZ4F_decompress_usingDict: the dictionary is (re)installed while the frame has not started ---- *)
+Definition pre_ud (ud : option (list byte)) (s : dstate) : dstate :=
+  match ud with
+  | Some d0 => if stage_num (d_stage s) <=? FD_dstage_init then set_hist s d0 else s
+  | None => s
+  end.
+Definition BInvU (ud : option (list byte)) (p O : list byte) (s : dstate) : Prop :=
+  CInv p O s \/ (p = [] /\ O = [] /\ d_stage s = GetFrameHeader /\ d_remaining s = 0 /\ d_skip s = false /\
+                 (ud = None -> d_hist s = dict)).
+Lemma BInv_BInvU ud p O s : BInv p O s -> BInvU ud p O s.
+Proof. intros [C|(A & B & C1 & C2 & C3 & C4)]; [left; exact C|right; auto 10]. Qed.
+Lemma wf_pre ud s : wf s -> wf (pre_ud ud s).
+Proof. intro H. unfold pre_ud. destruct ud; [|exact H]. destruct (_ <=? _); [apply wf_set_hist|]; exact H. Qed.
+Lemma set_hist_id s : set_hist s (d_hist s) = s.
+Proof. destruct s. reflexivity. Qed.
+
+Lemma CInv_set_hist p O s :
+  CInv p O s -> CInv p O (if stage_num (d_stage s) <=? FD_dstage_init then set_hist s dict else s).
+Proof.
+  intro C. assert (C0 := C).
+  destruct C as [Hst -> -> Hrem Hh Hsk | Hst -> Hrem Hh Hsk Hp Hbp | d maxb Hst -> B HK | d maxb Hst B HK
+                | d maxb t Hst B Ht Hbt HK | d maxb acc0 data1 Hst -> B Htg Hm Hx HK
+                | d maxb acc0 data t Hst -> B EB Hd Hx Ht Hbt HK | d maxb n Hst B Htg Hn HK
+                | d maxb n t Hst B Htg Hn Ht Hbt HK | d maxb acc0 Hst HOe B Hm HK | d maxb Hst B HK
+                | d maxb t Hst B EC ER Ht Hbt HK | Hst -> Hp4 Hmg];
+    try (rewrite Hst; cbn; exact C0).
+  - rewrite Hst. cbn. rewrite <- Hh, set_hist_id. exact C0.
+  - rewrite Hst. cbn. rewrite <- Hh, set_hist_id. exact C0.
+  - rewrite Hst. cbn.
+    eapply C_init with (d := d) (maxb := maxb); [ss; exact Hst|reflexivity| |exact HK].
+    destruct (do_init_fields s) as (I1 & I2 & I3 & I4 & I5 & I6).
+    destruct (do_init_fields (set_hist s dict)) as (J1 & J2 & J3 & J4 & J5 & J6).
+    destruct B as (B1 & B2 & B3 & B4 & B5 & B6 & B7). ss.
+    rewrite I1 in B1. rewrite I2 in B2. rewrite I3 in B3. rewrite I6 in B5. rewrite I5 in B6.
+    unfold binv. rewrite J1, J2, J3, J4, J5, J6.
+    split; [exact B1|]. split; [exact B2|]. split; [exact B3|]. split; [|auto].
+    destruct (f_indep d); [reflexivity|]. rewrite app_nil_r. reflexivity.
+  - destruct (d_stage s); try discriminate Hst; cbn; exact C0.
+Qed.
+
+Lemma BInvU_pre ud p O s : (forall d0, ud = Some d0 -> d0 = dict) -> BInvU ud p O s -> BInv p O (pre_ud ud s).
+Proof.
+  intros Hud [C|(-> & -> & H1 & H2 & H3 & H4)]; unfold pre_ud.
+  - left. destruct ud as [d0|]; [|exact C]. rewrite (Hud d0 eq_refl). apply CInv_set_hist. exact C.
+  - right. split; [reflexivity|]. split; [reflexivity|]. unfold at_start.
+    destruct ud as [d0|]; [|auto]. rewrite (Hud d0 eq_refl), H1. cbn. ss. auto.
+Qed.
 End Chunk.
 
 (* ---- a byte string driven through the decoder in pieces ---- *)
@@ -1678,6 +1735,34 @@ Fixpoint drive (bdec : list byte -> list byte -> option (list byte)) (o : dopts)
       else drive bdec o f s' (zdrop (r_consumed r) data) ns' caps' (acc ++ r_out r) (pos + r_consumed r)
   | _, _, _ => VMore
   end.
+
+(* the same with LZ4F_decompress_usingDict ([ud] = Some dictionary) *)
+Definition call (bdec : list byte -> list byte -> option (list byte)) (ud : option (list byte))
+           (s : dstate) (src : list byte) (cap : Z) (o : dopts) : dstate * dres :=
+  match ud with
+  | Some d0 => decompress_usingDict bdec s src cap d0 o
+  | None => decompress bdec s src cap o
+  end.
+Fixpoint drive_gen (bdec : list byte -> list byte -> option (list byte)) (ud : option (list byte)) (o : dopts) (fuel : nat)
+         (s : dstate) (data : list byte) (ns caps : list Z) (acc : list byte) (pos : Z) : verdict :=
+  match fuel, ns, caps with
+  | S f, n :: ns', cap :: caps' =>
+      let '(s', r) := call bdec ud s (ztake n data) cap o in
+      if r_ret r <? 0 then VError
+      else if r_ret r =? 0 then VComplete (acc ++ r_out r) (pos + r_consumed r)
+      else drive_gen bdec ud o f s' (zdrop (r_consumed r) data) ns' caps' (acc ++ r_out r) (pos + r_consumed r)
+  | _, _, _ => VMore
+  end.
+Definition drive_usingDict bdec (dict : list byte) := drive_gen bdec (Some dict).
+Lemma drive_gen_none bdec o : forall k s data ns caps acc pos,
+  drive_gen bdec None o k s data ns caps acc pos = drive bdec o k s data ns caps acc pos.
+Proof.
+  induction k as [|k IH]; intros; [reflexivity|]. destruct ns as [|n ns]; [reflexivity|]. destruct caps as [|c caps]; [reflexivity|].
+  cbn [drive_gen drive call]. destruct (decompress bdec s (ztake n data) c o) as [s' r].
+  destruct (r_ret r <? 0); [reflexivity|]. destruct (r_ret r =? 0); [reflexivity|]. apply IH.
+Qed.
+Lemma call_pre bdec ud s src cap o : call bdec ud s src cap o = decompress bdec (pre_ud ud s) src cap o.
+Proof. destruct ud; reflexivity. Qed.
 
 (* a frame accepted with every checksum verified is accepted, with the same result, when checksums are skipped *)
 Lemma blocks_skip_mono bdec sk d maxb dict : forall F acc bs res,
@@ -1722,13 +1807,15 @@ Section Drive.
 Variable bdec : list byte -> list byte -> option (list byte).
 Variable o : dopts.
 Variable dict : list byte.
+Variable ud : option (list byte).                       (* Some dict: the _usingDict entry point *)
+Hypothesis Hud : forall d0, ud = Some d0 -> d0 = dict.
 
 Lemma drive_extends : forall k s data ns caps acc pos content consumed,
-  drive bdec o k s data ns caps acc pos = VComplete content consumed -> exists y, content = acc ++ y.
+  drive_gen bdec ud o k s data ns caps acc pos = VComplete content consumed -> exists y, content = acc ++ y.
 Proof.
   induction k as [|k IH]; intros s data ns caps acc pos content consumed H; [discriminate H|].
   destruct ns as [|n ns]; [discriminate H|]. destruct caps as [|cap caps]; [discriminate H|].
-  cbn [drive] in H. destruct (decompress bdec s (ztake n data) cap o) as [s' r].
+  cbn [drive_gen] in H. rewrite call_pre in H. destruct (decompress bdec (pre_ud ud s) (ztake n data) cap o) as [s' r].
   destruct (r_ret r <? 0); [discriminate H|].
   destruct (r_ret r =? 0).
   - inversion H; subst. eexists; reflexivity.
@@ -1736,18 +1823,18 @@ Proof.
 Qed.
 
 Lemma drive_chunk : forall k s data ns caps acc pos p O content consumed,
-  wf s -> BInv bdec (o_skip o) dict p O s -> bytes_ok data = true -> Forall (fun c => 0 <= c) caps ->
-  drive bdec o k s data ns caps acc pos = VComplete content consumed ->
+  wf s -> BInvU bdec (o_skip o) dict ud p O s -> bytes_ok data = true -> Forall (fun c => 0 <= c) caps ->
+  drive_gen bdec ud o k s data ns caps acc pos = VComplete content consumed ->
   zlen O + (zlen content - zlen acc) < 18446744073709551616 ->
   exists x y rest, data = x ++ rest /\ content = acc ++ y /\ consumed = pos + zlen x /\
                    Fin bdec (o_skip o) dict (p ++ x) (O ++ y).
 Proof.
   induction k as [|k IH]; intros s data ns caps acc pos p O content consumed Hwf HB Hb Hcaps H Hlen; [discriminate H|].
   destruct ns as [|n ns]; [discriminate H|]. destruct caps as [|cap caps]; [discriminate H|].
-  cbn [drive] in H. inversion Hcaps as [|c0 cs0 Hc Hcaps']; subst.
+  cbn [drive_gen] in H. rewrite call_pre in H. inversion Hcaps as [|c0 cs0 Hc Hcaps']; subst.
   destruct (bytes_ok_split n _ Hb) as [Hb1 Hb2].
-  pose proof (call_chunk bdec (o_skip o) dict s (ztake n data) cap o p O eq_refl Hwf HB Hb1 Hc) as CC.
-  destruct (decompress bdec s (ztake n data) cap o) as [s' r]. cbn [fst snd] in CC.
+  pose proof (call_chunk bdec (o_skip o) dict (pre_ud ud s) (ztake n data) cap o p O eq_refl (wf_pre ud s Hwf) (BInvU_pre bdec (o_skip o) dict ud p O s Hud HB) Hb1 Hc) as CC.
+  destruct (decompress bdec (pre_ud ud s) (ztake n data) cap o) as [s' r]. cbn [fst snd] in CC.
   destruct (r_ret r <? 0) eqn:Eneg; [discriminate H|]. apply Z.ltb_ge in Eneg.
   assert (Hdata : forall x rest0, ztake n data = x ++ rest0 -> data = x ++ rest0 ++ zdrop n data).
   { intros x rest0 E. rewrite app_assoc, <- E. symmetry. apply ztake_zdrop_app. }
@@ -1770,7 +1857,7 @@ Proof.
     { rewrite Hd, bytes_ok_app in Hb. apply andb_prop in Hb. apply Hb. }
     assert (Hlen' : zlen (O ++ r_out r) + (zlen content - zlen (acc ++ r_out r)) < 18446744073709551616).
     { rewrite !zlen_app. lia. }
-    destruct (IH s' _ ns caps _ _ (p ++ x) (O ++ r_out r) content consumed C3 C4 Hb' Hcaps' H Hlen')
+    destruct (IH s' _ ns caps _ _ (p ++ x) (O ++ r_out r) content consumed C3 (BInv_BInvU _ _ _ ud _ _ _ C4) Hb' Hcaps' H Hlen')
       as (x2 & y2 & rest2 & D1 & D2 & D3 & D4).
     exists (x ++ x2), (r_out r ++ y2), rest2.
     split; [rewrite Hd, D1, app_assoc; reflexivity|]. split; [rewrite D2, app_assoc; reflexivity|].
@@ -1779,9 +1866,9 @@ Qed.
 
 (* on a valid frame (all checksums right) no call fails, whatever the chunking *)
 Lemma drive_valid : forall k s data ns caps acc pos p O res,
-  wf s -> BInv bdec (o_skip o) dict p O s -> bytes_ok data = true -> Forall (fun c => 0 <= c) caps ->
+  wf s -> BInvU bdec (o_skip o) dict ud p O s -> bytes_ok data = true -> Forall (fun c => 0 <= c) caps ->
   frame_decode bdec false dict (p ++ data) = Some res ->
-  match drive bdec o k s data ns caps acc pos with
+  match drive_gen bdec ud o k s data ns caps acc pos with
   | VError => False
   | VComplete content consumed =>
       exists x y rest, data = x ++ rest /\ content = acc ++ y /\ consumed = pos + zlen x /\
@@ -1791,10 +1878,10 @@ Lemma drive_valid : forall k s data ns caps acc pos p O res,
 Proof.
   induction k as [|k IH]; intros s data ns caps acc pos p O res Hwf HB Hb Hcaps HV; [exact I|].
   destruct ns as [|n ns]; [exact I|]. destruct caps as [|cap caps]; [exact I|].
-  cbn [drive]. inversion Hcaps as [|c0 cs0 Hc Hcaps']; subst.
+  cbn [drive_gen]. rewrite call_pre. inversion Hcaps as [|c0 cs0 Hc Hcaps']; subst.
   destruct (bytes_ok_split n _ Hb) as [Hb1 Hb2].
-  pose proof (call_chunk bdec (o_skip o) dict s (ztake n data) cap o p O eq_refl Hwf HB Hb1 Hc) as CC.
-  destruct (decompress bdec s (ztake n data) cap o) as [s' r]. cbn [fst snd] in CC.
+  pose proof (call_chunk bdec (o_skip o) dict (pre_ud ud s) (ztake n data) cap o p O eq_refl (wf_pre ud s Hwf) (BInvU_pre bdec (o_skip o) dict ud p O s Hud HB) Hb1 Hc) as CC.
+  destruct (decompress bdec (pre_ud ud s) (ztake n data) cap o) as [s' r]. cbn [fst snd] in CC.
   assert (Hval : Valid bdec dict p (ztake n data)).
   { exists (zdrop n data), res. unfold SpecGoalF. rewrite ztake_zdrop_app. exact HV. }
   destruct (CC (or_intror Hval)) as [CCn CCp]. clear CC.
@@ -1815,8 +1902,8 @@ Proof.
     { rewrite Hd, bytes_ok_app in Hb. apply andb_prop in Hb. apply Hb. }
     assert (HV' : frame_decode bdec false dict ((p ++ x) ++ rest0 ++ zdrop n data) = Some res).
     { rewrite <- app_assoc, <- Hd. exact HV. }
-    pose proof (IH s' _ ns caps (acc ++ r_out r) (pos + r_consumed r) (p ++ x) (O ++ r_out r) res C3 C4 Hb' Hcaps' HV') as R.
-    destruct (drive bdec o k s' (rest0 ++ zdrop n data) ns caps (acc ++ r_out r) (pos + r_consumed r)) as [content consumed| |]; auto.
+    pose proof (IH s' _ ns caps (acc ++ r_out r) (pos + r_consumed r) (p ++ x) (O ++ r_out r) res C3 (BInv_BInvU _ _ _ ud _ _ _ C4) Hb' Hcaps' HV') as R.
+    destruct (drive_gen bdec ud o k s' (rest0 ++ zdrop n data) ns caps (acc ++ r_out r) (pos + r_consumed r)) as [content consumed| |]; auto.
     destruct R as (x2 & y2 & rest2 & D1 & D2 & D3 & D4).
     exists (x ++ x2), (r_out r ++ y2), rest2.
     split; [rewrite Hd, D1, app_assoc; reflexivity|]. split; [rewrite D2, app_assoc; reflexivity|].
@@ -1827,18 +1914,18 @@ Qed.
    specification accepts with every checksum verified, no call fails whatever the pieces, the
    capacities and skipChecksums; and when the calls come to an end (enough pieces were offered),
    the verdict is the specification's: the specified content, the length of the frame. *)
-Theorem chunked_complete : forall k s data ns caps content rest,
-  wf s -> d_stage s = GetFrameHeader -> d_remaining s = 0 -> d_hist s = dict -> d_skip s = false ->
+Theorem chunked_complete_gen : forall k s data ns caps content rest,
+  wf s -> d_stage s = GetFrameHeader -> d_remaining s = 0 -> (ud = None -> d_hist s = dict) -> d_skip s = false ->
   bytes_ok data = true -> Forall (fun c => 0 <= c) caps ->
   frame_decode bdec false dict data = Some (content, rest) ->
-  drive bdec o k s data ns caps [] 0 <> VError /\
-  (drive bdec o k s data ns caps [] 0 <> VMore ->
-   drive bdec o k s data ns caps [] 0 = VComplete content (zlen data - zlen rest)).
+  drive_gen bdec ud o k s data ns caps [] 0 <> VError /\
+  (drive_gen bdec ud o k s data ns caps [] 0 <> VMore ->
+   drive_gen bdec ud o k s data ns caps [] 0 = VComplete content (zlen data - zlen rest)).
 Proof.
   intros k s data ns caps content rest Hwf H1 H2 H3 H4 Hb Hcaps HV.
-  assert (HB : BInv bdec (o_skip o) dict [] [] s) by (right; unfold at_start; auto 10).
+  assert (HB : BInvU bdec (o_skip o) dict ud [] [] s) by (right; auto 10).
   pose proof (drive_valid k s data ns caps [] 0 [] [] _ Hwf HB Hb Hcaps HV) as D.
-  destruct (drive bdec o k s data ns caps [] 0) as [c n| |]; [|contradiction|].
+  destruct (drive_gen bdec ud o k s data ns caps [] 0) as [c n| |]; [|contradiction|].
   2:{ split; [discriminate|]. intro X. contradiction. }
   split; [discriminate|]. intros _.
   destruct D as (x & y & rest' & D1 & D2 & D3 & D4). cbn [app] in *. subst c.
@@ -1855,12 +1942,12 @@ Qed.
    produces at least one byte (no livelock), so |input| + |content| + 1 pieces always suffice *)
 Lemma drive_terminates : forall k s data ns caps acc pos p O content rest,
   o_dstnull o = false ->
-  wf s -> BInv bdec (o_skip o) dict p O s -> bytes_ok data = true ->
+  wf s -> BInvU bdec (o_skip o) dict ud p O s -> bytes_ok data = true ->
   Forall (fun n => 1 <= n) ns -> Forall (fun c => 1 <= c) caps ->
   frame_decode bdec false dict (p ++ data) = Some (content, rest) ->
   (k <= length ns)%nat -> (k <= length caps)%nat ->
   zlen data + (zlen content - zlen O) < Z.of_nat k ->
-  drive bdec o k s data ns caps acc pos <> VMore.
+  drive_gen bdec ud o k s data ns caps acc pos <> VMore.
 Proof.
   induction k as [|k IH]; intros s data ns caps acc pos p O content rest Hnull Hwf HB Hb Hns Hcaps HV Lns Lcaps HM.
   - exfalso. pose proof (zlen_nonneg data).
@@ -1868,7 +1955,7 @@ Proof.
     destruct HB as [C|(_ & -> & _)]; [|apply zlen_nonneg].
     destruct (CInv_prefix _ _ _ _ _ _ _ _ _ C HV) as [y ->]. rewrite zlen_app. pose proof (zlen_nonneg y). lia.
   - destruct ns as [|n ns]; [simpl in Lns; lia|]. destruct caps as [|cap caps]; [simpl in Lcaps; lia|].
-    cbn [drive]. inversion Hcaps as [|c0 cs0 Hc1 Hcaps']; subst. inversion Hns as [|n0 ns0 Hn1 Hns']; subst.
+    cbn [drive_gen]. rewrite call_pre. inversion Hcaps as [|c0 cs0 Hc1 Hcaps']; subst. inversion Hns as [|n0 ns0 Hn1 Hns']; subst.
     assert (Hc : 0 <= cap) by lia.
     destruct (bytes_ok_split n _ Hb) as [Hb1 Hb2].
     assert (Hval : Valid bdec dict p (ztake n data)).
@@ -1879,15 +1966,16 @@ Proof.
       assert (data = []) by (apply zlen0_nil; exact Z0). subst data.
       assert (Hz : ztake n [] = []) by (unfold ztake; apply firstn_nil). rewrite Hz.
       assert (G : SpecGoalF bdec dict p [] (content, rest)) by exact HV.
-      pose proof (call_empty bdec (o_skip o) dict s cap o p O _ eq_refl Hwf HB Hc G) as R0.
-      destruct (decompress bdec s [] cap o) as [s' r]. cbn [snd] in R0. rewrite R0. cbn. discriminate. }
+      pose proof (call_empty bdec (o_skip o) dict (pre_ud ud s) cap o p O _ eq_refl (wf_pre ud s Hwf)
+                    (BInvU_pre bdec (o_skip o) dict ud p O s Hud HB) Hc G) as R0.
+      destruct (decompress bdec (pre_ud ud s) [] cap o) as [s' r]. cbn [snd] in R0. rewrite R0. cbn. discriminate. }
     assert (Hsrc1 : 1 <= zlen (ztake n data)).
     { destruct (Z.le_gt_cases n (zlen data)); [rewrite zlen_ztake; lia|rewrite ztake_all; lia]. }
-    pose proof (call_chunk bdec (o_skip o) dict s (ztake n data) cap o p O eq_refl Hwf HB Hb1 Hc) as CC.
-    pose proof (decompress_ok bdec s (ztake n data) cap o Hwf Hc) as (_ & _ & _ & _ & _ & _ & PROG).
-    pose proof (produced_out bdec s (ztake n data) cap o) as PO.
+    pose proof (call_chunk bdec (o_skip o) dict (pre_ud ud s) (ztake n data) cap o p O eq_refl (wf_pre ud s Hwf) (BInvU_pre bdec (o_skip o) dict ud p O s Hud HB) Hb1 Hc) as CC.
+    pose proof (decompress_ok bdec (pre_ud ud s) (ztake n data) cap o (wf_pre ud s Hwf) Hc) as (_ & _ & _ & _ & _ & _ & PROG).
+    pose proof (produced_out bdec (pre_ud ud s) (ztake n data) cap o) as PO.
     specialize (PROG Hsrc1 Hc1 Hnull).
-    destruct (decompress bdec s (ztake n data) cap o) as [s' r]. cbn [fst snd] in CC, PROG, PO.
+    destruct (decompress bdec (pre_ud ud s) (ztake n data) cap o) as [s' r]. cbn [fst snd] in CC, PROG, PO.
     destruct (CC (or_intror Hval)) as [CCn CCp]. clear CC.
     destruct (r_ret r <? 0) eqn:Eneg.
     { exfalso. apply Z.ltb_lt in Eneg. destruct Hval as (R & res' & G). exact (CCn Eneg R res' G). }
@@ -1904,7 +1992,7 @@ Proof.
     { rewrite Hd, bytes_ok_app in Hb. apply andb_prop in Hb. apply Hb. }
     assert (HV' : frame_decode bdec false dict ((p ++ x) ++ rest0 ++ zdrop n data) = Some (content, rest)).
     { rewrite <- app_assoc, <- Hd. exact HV. }
-    apply (IH s' _ ns caps _ _ (p ++ x) (O ++ r_out r) content rest Hnull C3 C4 Hb' Hns' Hcaps' HV');
+    apply (IH s' _ ns caps _ _ (p ++ x) (O ++ r_out r) content rest Hnull C3 (BInv_BInvU _ _ _ ud _ _ _ C4) Hb' Hns' Hcaps' HV');
       [simpl in Lns; lia | simpl in Lcaps; lia |].
     assert (Hlx : zlen data = zlen x + zlen (rest0 ++ zdrop n data)) by (rewrite Hd at 1; apply zlen_app).
     rewrite (zlen_app O). pose proof (zlen_nonneg x). pose proof (zlen_nonneg (r_out r)).
@@ -1918,16 +2006,16 @@ Qed.
      the concatenation of the outputs of all the calls is the specified content, and the total
      consumed is the length of that frame (the rest of the input is what the specification leaves),
    - or they are a skippable frame (nothing produced). *)
-Theorem chunked_sound : forall k s data ns caps content consumed,
-  wf s -> d_stage s = GetFrameHeader -> d_remaining s = 0 -> d_hist s = dict -> d_skip s = false ->
+Theorem chunked_sound_gen : forall k s data ns caps content consumed,
+  wf s -> d_stage s = GetFrameHeader -> d_remaining s = 0 -> (ud = None -> d_hist s = dict) -> d_skip s = false ->
   bytes_ok data = true -> Forall (fun c => 0 <= c) caps ->
-  drive bdec o k s data ns caps [] 0 = VComplete content consumed ->
+  drive_gen bdec ud o k s data ns caps [] 0 = VComplete content consumed ->
   zlen content < 18446744073709551616 ->
   (exists rest, frame_decode bdec (o_skip o) dict data = Some (content, rest) /\ consumed = zlen data - zlen rest)
   \/ (content = [] /\ 4 <= consumed <= zlen data /\ Z.land (rd32 data) SKIP_MASK = FD_MAGIC_SKIPPABLE_START).
 Proof.
   intros k s data ns caps content consumed Hwf H1 H2 H3 H4 Hb Hcaps H Hlen.
-  assert (HB : BInv bdec (o_skip o) dict [] [] s) by (right; unfold at_start; auto 10).
+  assert (HB : BInvU bdec (o_skip o) dict ud [] [] s) by (right; auto 10).
   destruct (drive_chunk k s data ns caps [] 0 [] [] content consumed Hwf HB Hb Hcaps H ltac:(unfold zlen at 1 3; simpl length; lia))
     as (x & y & rest & D1 & D2 & D3 & D4).
   cbn [app] in *. subst content. destruct D4 as [D|(D5 & D6 & D7)].
@@ -1939,7 +2027,57 @@ Qed.
 (* Chunking independence (non-NULL destination): a valid frame offered in ANY
    pieces of >= 1 byte, with ANY capacities >= 1, is decoded to the specified content, and
    |input| + |content| + 1 calls suffice. *)
-Theorem chunked_reaches : forall s data ns caps content rest,
+Theorem chunked_reaches_gen : forall s data ns caps content rest,
+  o_dstnull o = false ->
+  wf s -> d_stage s = GetFrameHeader -> d_remaining s = 0 -> (ud = None -> d_hist s = dict) -> d_skip s = false ->
+  bytes_ok data = true -> Forall (fun n => 1 <= n) ns -> Forall (fun c => 1 <= c) caps ->
+  frame_decode bdec false dict data = Some (content, rest) ->
+  let K := Z.to_nat (zlen data + zlen content + 1) in
+  (K <= length ns)%nat -> (K <= length caps)%nat ->
+  drive_gen bdec ud o K s data ns caps [] 0 = VComplete content (zlen data - zlen rest).
+Proof.
+  intros s data ns caps content rest Hnull Hwf H1 H2 H3 H4 Hb Hns Hcaps HV K Lns Lcaps.
+  assert (Hcaps0 : Forall (fun c => 0 <= c) caps) by (eapply Forall_impl; [|exact Hcaps]; cbv beta; intros; lia).
+  destruct (chunked_complete_gen K s data ns caps content rest Hwf H1 H2 H3 H4 Hb Hcaps0 HV) as [_ HC].
+  apply HC.
+  assert (HB : BInvU bdec (o_skip o) dict ud [] [] s) by (right; auto 10).
+  apply (drive_terminates K s data ns caps [] 0 [] [] content rest Hnull Hwf HB Hb Hns Hcaps); auto.
+  - pose proof (zlen_nonneg data). pose proof (zlen_nonneg content). unfold K. change (zlen []) with 0. lia.
+Qed.
+End Drive.
+
+(* ---- the two entry points ---- *)
+Lemma ud_none dict : forall d0 : list byte, @None (list byte) = Some d0 -> d0 = dict.
+Proof. intros d0 E. discriminate E. Qed.
+Lemma ud_some (dict : list byte) : forall d0, Some dict = Some d0 -> d0 = dict.
+Proof. intros d0 E. inversion E. reflexivity. Qed.
+
+(* LZ4F_decompress: the history a frame starts with is the one left in the context *)
+Theorem chunked_sound : forall bdec o dict k s data ns caps content consumed,
+  wf s -> d_stage s = GetFrameHeader -> d_remaining s = 0 -> d_hist s = dict -> d_skip s = false ->
+  bytes_ok data = true -> Forall (fun c => 0 <= c) caps ->
+  drive bdec o k s data ns caps [] 0 = VComplete content consumed ->
+  zlen content < 18446744073709551616 ->
+  (exists rest, frame_decode bdec (o_skip o) dict data = Some (content, rest) /\ consumed = zlen data - zlen rest)
+  \/ (content = [] /\ 4 <= consumed <= zlen data /\ Z.land (rd32 data) SKIP_MASK = FD_MAGIC_SKIPPABLE_START).
+Proof.
+  intros bdec o dict k s data ns caps content consumed Hwf H1 H2 H3 H4 Hb Hcaps H Hlen.
+  rewrite <- drive_gen_none in H.
+  exact (chunked_sound_gen bdec o dict None (ud_none dict) k s data ns caps content consumed Hwf H1 H2 (fun _ => H3) H4 Hb Hcaps H Hlen).
+Qed.
+Theorem chunked_complete : forall bdec o dict k s data ns caps content rest,
+  wf s -> d_stage s = GetFrameHeader -> d_remaining s = 0 -> d_hist s = dict -> d_skip s = false ->
+  bytes_ok data = true -> Forall (fun c => 0 <= c) caps ->
+  frame_decode bdec false dict data = Some (content, rest) ->
+  drive bdec o k s data ns caps [] 0 <> VError /\
+  (drive bdec o k s data ns caps [] 0 <> VMore ->
+   drive bdec o k s data ns caps [] 0 = VComplete content (zlen data - zlen rest)).
+Proof.
+  intros bdec o dict k s data ns caps content rest Hwf H1 H2 H3 H4 Hb Hcaps HV.
+  rewrite <- drive_gen_none.
+  exact (chunked_complete_gen bdec o dict None (ud_none dict) k s data ns caps content rest Hwf H1 H2 (fun _ => H3) H4 Hb Hcaps HV).
+Qed.
+Theorem chunked_reaches : forall bdec o dict s data ns caps content rest,
   o_dstnull o = false ->
   wf s -> d_stage s = GetFrameHeader -> d_remaining s = 0 -> d_hist s = dict -> d_skip s = false ->
   bytes_ok data = true -> Forall (fun n => 1 <= n) ns -> Forall (fun c => 1 <= c) caps ->
@@ -1948,15 +2086,49 @@ Theorem chunked_reaches : forall s data ns caps content rest,
   (K <= length ns)%nat -> (K <= length caps)%nat ->
   drive bdec o K s data ns caps [] 0 = VComplete content (zlen data - zlen rest).
 Proof.
-  intros s data ns caps content rest Hnull Hwf H1 H2 H3 H4 Hb Hns Hcaps HV K Lns Lcaps.
-  assert (Hcaps0 : Forall (fun c => 0 <= c) caps) by (eapply Forall_impl; [|exact Hcaps]; cbv beta; intros; lia).
-  destruct (chunked_complete K s data ns caps content rest Hwf H1 H2 H3 H4 Hb Hcaps0 HV) as [_ HC].
-  apply HC.
-  assert (HB : BInv bdec (o_skip o) dict [] [] s) by (right; unfold at_start; auto 10).
-  apply (drive_terminates K s data ns caps [] 0 [] [] content rest Hnull Hwf HB Hb Hns Hcaps); auto.
-  - pose proof (zlen_nonneg data). pose proof (zlen_nonneg content). unfold K. change (zlen []) with 0. lia.
+  intros bdec o dict s data ns caps content rest Hnull Hwf H1 H2 H3 H4 Hb Hns Hcaps HV K L1 L2.
+  rewrite <- drive_gen_none.
+  exact (chunked_reaches_gen bdec o dict None (ud_none dict) s data ns caps content rest Hnull Hwf H1 H2 (fun _ => H3) H4 Hb Hns Hcaps HV L1 L2).
 Qed.
-End Drive.
+
+(* LZ4F_decompress_usingDict with the same dictionary at every call: whatever history was left *)
+Theorem chunked_sound_usingDict : forall bdec o dict k s data ns caps content consumed,
+  wf s -> d_stage s = GetFrameHeader -> d_remaining s = 0 -> d_skip s = false ->
+  bytes_ok data = true -> Forall (fun c => 0 <= c) caps ->
+  drive_usingDict bdec dict o k s data ns caps [] 0 = VComplete content consumed ->
+  zlen content < 18446744073709551616 ->
+  (exists rest, frame_decode bdec (o_skip o) dict data = Some (content, rest) /\ consumed = zlen data - zlen rest)
+  \/ (content = [] /\ 4 <= consumed <= zlen data /\ Z.land (rd32 data) SKIP_MASK = FD_MAGIC_SKIPPABLE_START).
+Proof.
+  intros bdec o dict k s data ns caps content consumed Hwf H1 H2 H4 Hb Hcaps H Hlen.
+  refine (chunked_sound_gen bdec o dict (Some dict) (ud_some dict) k s data ns caps content consumed Hwf H1 H2 _ H4 Hb Hcaps H Hlen).
+  discriminate.
+Qed.
+Theorem chunked_complete_usingDict : forall bdec o dict k s data ns caps content rest,
+  wf s -> d_stage s = GetFrameHeader -> d_remaining s = 0 -> d_skip s = false ->
+  bytes_ok data = true -> Forall (fun c => 0 <= c) caps ->
+  frame_decode bdec false dict data = Some (content, rest) ->
+  drive_usingDict bdec dict o k s data ns caps [] 0 <> VError /\
+  (drive_usingDict bdec dict o k s data ns caps [] 0 <> VMore ->
+   drive_usingDict bdec dict o k s data ns caps [] 0 = VComplete content (zlen data - zlen rest)).
+Proof.
+  intros bdec o dict k s data ns caps content rest Hwf H1 H2 H4 Hb Hcaps HV.
+  refine (chunked_complete_gen bdec o dict (Some dict) (ud_some dict) k s data ns caps content rest Hwf H1 H2 _ H4 Hb Hcaps HV).
+  discriminate.
+Qed.
+Theorem chunked_reaches_usingDict : forall bdec o dict s data ns caps content rest,
+  o_dstnull o = false ->
+  wf s -> d_stage s = GetFrameHeader -> d_remaining s = 0 -> d_skip s = false ->
+  bytes_ok data = true -> Forall (fun n => 1 <= n) ns -> Forall (fun c => 1 <= c) caps ->
+  frame_decode bdec false dict data = Some (content, rest) ->
+  let K := Z.to_nat (zlen data + zlen content + 1) in
+  (K <= length ns)%nat -> (K <= length caps)%nat ->
+  drive_usingDict bdec dict o K s data ns caps [] 0 = VComplete content (zlen data - zlen rest).
+Proof.
+  intros bdec o dict s data ns caps content rest Hnull Hwf H1 H2 H4 Hb Hns Hcaps HV K L1 L2.
+  refine (chunked_reaches_gen bdec o dict (Some dict) (ud_some dict) s data ns caps content rest Hnull Hwf H1 H2 _ H4 Hb Hns Hcaps HV L1 L2).
+  discriminate.
+Qed.
 
 (* the statement Properties_C08.C08_chunking_independent_full_statement *)
 Theorem chunked_independent : forall bdec skip data ns caps content rest,
